@@ -136,6 +136,34 @@ CLAIMS = {
              "CPython str() of scalars/lists. Not decided: the parse "
              "direction over arbitrary generated argument lists.",
         ref="DESIGN.md section 3 C10"),
+    "C16": dict(
+        technique="partial evaluation of the multiplier factory with "
+                  "symbolic operand widths; table/symmetry comparison; "
+                  "max-affine inequality proofs (normal-form identity, else "
+                  "witness search)",
+        text="Table shape/mode order, commutativity (cells and widths), "
+             "implementation and output kind against a reference matrix, "
+             "sign rule, operand dependence, and sufficiency of integer / "
+             "fractional bits for fixed x fixed, shifter and selecting "
+             "cells - for all widths at once.",
+        note="Trusted: two's-complement ranges of (bits,int_bits,is_signed); "
+             "po2 exponent range from get_min_max_exp. Not decided: po2 "
+             "cells beyond exponent bookkeeping, max_value clamps, -1 x "
+             "most-negative code in mux cells.",
+        ref="DESIGN.md section 3 C16"),
+    "C17": dict(
+        technique="partial evaluation of adder/accumulator/merge type rules "
+                  "with symbolic widths (all paths for merges); inequality "
+                  "proofs with witness search; polarity analysis",
+        text="Adder table symmetry and commutative output types, po2 "
+             "operands converted before adding, accumulator growth >= "
+             "ceil(log2 N), integer/fractional sufficiency of adders and "
+             "merges on every path, monotone widening.",
+        note="Inequalities are proved by normal-form identity where "
+             "possible, otherwise searched on a witness grid (verdict "
+             "'bounded'). Not decided: sufficiency as an arithmetic fact "
+             "for N up to 2^20 when forms differ.",
+        ref="DESIGN.md section 3 C17"),
 }
 
 PENDING = "rules for this property are not built yet in this revision of /verif"
